@@ -257,7 +257,7 @@ class Prop(Check):
                 "Peg.C19_full_false", "Peg.parse_le", "Peg.plain_sim", "Peg.memo_sim",
                 # round D19: constant whitespace context (modifiers restating it), converse termination, verdicts
                 "Peg.C19_at", "Peg.C19_at_diverges", "Peg.C19_partial_at", "Peg.C19_converse_at",
-                "Peg.C19_partial_agree_at", "Peg.C19_partial_accept_at", "Peg.C19_posdet_at",
+                "Peg.C19_partial_agree_at", "Peg.C19_partial_accept_at", "Peg.C19_posdet_at", "Peg.C19_partial_warm_at",
                 "Peg.C19_statement_false", "Peg.C19_comment_false", "Tx.C19_load_at", "Peg.uniformAtB_sound",
                 "Peg.plain_sim_at", "Peg.memo_sim_at", "Peg.memo_rev", "Peg.memo_fin_plain", "Peg.bodyNode_ev",
                 "Peg.parseLim_ev"]
